@@ -33,8 +33,15 @@ import re
 from .model import AnalysisError, own_nodes, unparse
 from . import consteval
 
-PARSER = 'stone.frontend.parser.ParserFactory'
-LEXER = 'stone.frontend.lexer.Lexer'
+LANGS = {
+    'spec': dict(parser='stone.frontend.parser.ParserFactory', lexer='stone.frontend.lexer.Lexer',
+                 min_prods=100, min_rules=20, min_reads=150, what='spec'),
+    'filter': dict(parser='stone.cli_helpers.FilterExprParser',
+                   lexer='stone.cli_helpers.FilterExprLexer',
+                   min_prods=8, min_rules=10, min_reads=10, what='route filter'),
+}
+PARSER = LANGS['spec']['parser']
+LEXER = LANGS['spec']['lexer']
 REF = os.path.join(os.path.dirname(os.path.dirname(os.path.abspath(__file__))),
                    'reference', 'grammar.json')
 
@@ -138,8 +145,9 @@ def _fold(node, env):
         return _NO
 
 
-def spec_grammar(pm):
-    cls = pm.cls(PARSER)
+def spec_grammar(pm, lang='spec'):
+    cfg = LANGS[lang]
+    cls = pm.cls(cfg['parser'])
     prods = []
     funcs = {}
     for name, f in cls.methods.items():
@@ -157,22 +165,27 @@ def spec_grammar(pm):
     tab = class_table(cls)
     start = tab.get('start')
     if not isinstance(start, str):
-        raise AnalysisError('grammar: ParserFactory.start is not a constant string')
-    ltab = class_table(pm.cls(LEXER))
+        raise AnalysisError('grammar: %s.start is not a constant string' % cls.name)
+    ltab = class_table(pm.cls(cfg['lexer']))
     tokens = ltab.get('tokens')
     if not isinstance(tokens, tuple) or not all(isinstance(t, str) for t in tokens):
         raise AnalysisError('grammar: Lexer.tokens does not fold to a tuple of names')
-    if len(prods) < 100:
+    if len(prods) < cfg['min_prods']:
         raise AnalysisError('grammar: only %d productions found (anchor moved?)' % len(prods))
-    return {'start': start, 'tokens': list(tokens),
+    prec = []
+    for e in tab.get('precedence', ()) or ():
+        if isinstance(e, tuple) and all(isinstance(x, str) for x in e):
+            prec.append(list(e))
+    return {'start': start, 'tokens': list(tokens), 'precedence': prec,
             'productions': [(l, list(r), n) for l, r, n in prods], 'funcs': funcs}
 
 
-def lexer_table(pm):
+def lexer_table(pm, lang='spec'):
     """What ply's lex reads from the Lexer class: per state the ordered rule
     list (function rules in source order, then string rules by decreasing
     regex length), the ignored characters, plus the keyword tables."""
-    cls = pm.cls(LEXER)
+    cfg = LANGS[lang]
+    cls = pm.cls(cfg['lexer'])
     tab = class_table(cls)
     states = {'INITIAL': 'inclusive'}
     for s in tab.get('states', ()) or ():
@@ -229,22 +242,29 @@ def lexer_table(pm):
             if not ignore[s]:
                 ignore[s] = ignore['INITIAL']
     kw = tab.get('KEYWORDS')
-    rs = tab.get('RESERVED')
+    rs = tab.get('RESERVED', {})
+    if isinstance(kw, dict):          # word -> token type
+        rs = dict(kw)
+        kw = list(kw)
     if not isinstance(kw, list) or not isinstance(rs, dict):
         raise AnalysisError('lexer: KEYWORDS / RESERVED do not fold to constant tables')
-    if sum(len(v) for v in rules.values()) < 20:
+    if sum(len(v) for v in rules.values()) < cfg['min_rules']:
         raise AnalysisError('lexer: only %d token rules found' % sum(len(v) for v in rules.values()))
     return {'states': states, 'rules': {s: [list(r) for r in v] for s, v in rules.items()},
             'ignore': ignore, 'keywords': list(kw), 'reserved': dict(rs)}
 
 
 def build_reference(pm):
-    g = spec_grammar(pm)
-    return {'note': 'token-level grammar of the spec language and lexer tables at /repo HEAD, '
-                    'extracted by stonelint/grammar.py; the reference of rules GR3/GR4',
-            'grammar': {'start': g['start'], 'tokens': g['tokens'],
-                        'productions': [[l, r] for l, r, _ in g['productions']]},
-            'lexer': lexer_table(pm)}
+    out = {'note': 'token-level grammars (spec language, route filter expressions) and lexer '
+                   'tables at /repo HEAD, extracted by stonelint/grammar.py; the reference of '
+                   'rules GR3/GR4'}
+    for lang in LANGS:
+        g = spec_grammar(pm, lang)
+        out[lang] = {'grammar': {'start': g['start'], 'tokens': g['tokens'],
+                                 'precedence': g['precedence'],
+                                 'productions': [[l, r] for l, r, _ in g['productions']]},
+                     'lexer': lexer_table(pm, lang)}
+    return out
 
 
 def load_reference():
@@ -382,16 +402,16 @@ def _narrow(alts, atom, pol, pname, none_nts, lexer):
     return alts
 
 
-def index_bounds(pm, pathinfo):
+def index_bounds(pm, pathinfo, lang='spec'):
     """For every ``p[k]`` (constant k) in a production action: every
     alternative of the function that survives the tests on the path (``len(p)``
     comparisons, truth value / ``is not None`` of a slot that an alternative
     fills with the ``empty`` nonterminal, comparison of a slot with the fixed
     text of a punctuation token; single-assignment flag locals substituted)
     must have more than k slots.  -> [(func, node, k, admitted, bad, store)]"""
-    g = spec_grammar(pm)
+    g = spec_grammar(pm, lang)
     try:
-        lexer = lexer_table(pm)
+        lexer = lexer_table(pm, lang)
     except AnalysisError:
         lexer = None
     # nonterminals that can only produce None: all alternatives empty and the
@@ -602,8 +622,11 @@ def load_yacc(repo):
 
 
 class LRTable:
-    def __init__(self, yacc, prods, toks, start):
+    def __init__(self, yacc, prods, toks, start, precedence=()):
         g = yacc.Grammar(list(toks))
+        for i, e in enumerate(precedence or ()):
+            for t in e[1:]:
+                g.set_precedence(t, e[0], i + 1)
         for i, (lhs, rhs) in enumerate(prods):
             g.add_production(lhs, list(rhs), 'p_%d' % i, 'grammar', i)
         g.set_start(start)
@@ -657,15 +680,17 @@ def language_witness(cur, ref, repo, bound_total=14, max_probe=4000):
     stats = {}
     cp = [(l, tuple(r)) for l, r in cur['productions']]
     rp = [(l, tuple(r)) for l, r in ref['productions']]
+    pc = [list(e) for e in cur.get('precedence') or ()]
+    pr = [list(e) for e in ref.get('precedence') or ()]
     if canonical(cp, cur['start']) == canonical(rp, ref['start']) and \
-            set(cur['tokens']) == set(ref['tokens']):
+            set(cur['tokens']) == set(ref['tokens']) and pc == pr:
         return None, {'same_up_to_renaming': True}
     yacc = load_yacc(repo)
     try:
-        tcur = LRTable(yacc, cp, cur['tokens'], cur['start'])
+        tcur = LRTable(yacc, cp, cur['tokens'], cur['start'], pc)
     except Exception as e:      # a grammar ply refuses is itself the finding
         return {'sentence': None, 'why': 'ply refuses the current grammar: %s' % e}, stats
-    tref = LRTable(yacc, rp, ref['tokens'], ref['start'])
+    tref = LRTable(yacc, rp, ref['tokens'], ref['start'], pr)
     stats['lalr_states'] = (len(tcur.lr.lr_action), len(tref.lr.lr_action))
     toks_c, toks_r = set(cur['tokens']), set(ref['tokens'])
     mlc, mlr = min_lengths(cp, toks_c), min_lengths(rp, toks_r)
@@ -709,8 +734,26 @@ def language_witness(cur, ref, repo, bound_total=14, max_probe=4000):
         if a in cxr:
             for w in sorted(lr_[a], key=lambda w: (len(w), w))[:20]:
                 probes.append((cxr[a][0] + w + cxr[a][1], a, 'reference'))
+    # whole sentences of the start symbol, shortest first (needed when only the
+    # precedence table or a conflict resolution changed: every nonterminal then
+    # has the same context-free language)
+    import time as _time
+    t0 = _time.time()
+    for which, prods_, toks_, cx_, start_ in (('current', cp, toks_c, cxc, cur['start']),
+                                              ('reference', rp, toks_r, cxr, ref['start'])):
+        best = set()
+        for L in range(5, 14):
+            bnd = {a: max(0, L - len(cx_[a][0]) - len(cx_[a][1])) for a in cx_}
+            lang = bounded_language(prods_, toks_, bnd)
+            best = lang.get(start_, set())
+            if sum(len(v) for v in lang.values()) > 120000 or _time.time() - t0 > 10:
+                break
+        stats.setdefault('start_sentences', []).append(len(best))
+        for w in sorted(best, key=lambda w: (-len(w), w))[:6000]:
+            probes.append((w, start_, which))
     seen = set()
     n = 0
+    max_probe += 12000
     for sent, a, side in probes:
         if sent in seen:
             continue
@@ -828,15 +871,17 @@ def lexer_witness(cur, ref, maxlen=3):
 # the rule
 # ---------------------------------------------------------------------------
 
-def run(pm, ctx, rule, which=('GR1', 'GR2', 'GR3', 'GR4')):
-    """Run the grammar/lexer table rules under rule id ``rule``."""
+def run(pm, ctx, rule, which=('GR1', 'GR2', 'GR3', 'GR4'), lang='spec'):
+    """Run the grammar/lexer table rules of one language under rule id ``rule``."""
     from .pathcond import PathInfo
-    ctx.rule(rule, 'spec grammar and lexer tables (strings the ast rules do not see): '
+    cfg = LANGS[lang]
+    what = cfg['what']
+    ctx.rule(rule, '%s grammar and lexer tables (strings the ast rules do not see): '
                    'well-formed grammar, p[k] within every admitted alternative, token-level '
                    'language and lexer tables unchanged against reference/grammar.json '
-                   '(a report carries a witness sentence / text)')
-    g = spec_grammar(pm)
-    cls = pm.cls(PARSER)
+                   '(a report carries a witness sentence / text)' % what)
+    g = spec_grammar(pm, lang)
+    cls = pm.cls(cfg['parser'])
     where = cls.module.relpath
     if 'GR1' in which:
         probs = wellformed(g)
@@ -845,17 +890,18 @@ def run(pm, ctx, rule, which=('GR1', 'GR2', 'GR3', 'GR4')):
             by.setdefault((kind, sym), fn)
         for (kind, sym), fn in sorted(by.items()):
             f = cls.methods.get(fn)
-            ctx.violation(rule, '%s|grammar|%s|%s' % (rule, kind, sym),
+            ctx.violation(rule, '%s|%s-grammar|%s|%s' % (rule, lang, kind, sym),
                           f.loc if f else where,
-                          'grammar symbol %s is %s (%s): constructs that need it can no longer be '
-                          'parsed' % (sym, kind, fn))
+                          '%s grammar symbol %s is %s (%s): constructs that need it can no longer '
+                          'be parsed' % (what, sym, kind, fn))
         nts = {p[0] for p in g['productions']}
-        ctx.ok(rule, 'grammar well-formed: %d productions, %d nonterminals, %d tokens; every '
+        ctx.ok(rule, '%s grammar well-formed: %d productions, %d nonterminals, %d tokens; every '
                      'symbol defined, reachable from %s and productive' % (
-                         len(g['productions']), len(nts), len(g['tokens']), g['start']), where)
+                         what, len(g['productions']), len(nts), len(g['tokens']), g['start']),
+               where)
     if 'GR2' in which:
         n = 0
-        for f, node, k, admitted, bad, store in index_bounds(pm, lambda f: PathInfo(f.node)):
+        for f, node, k, admitted, bad, store in index_bounds(pm, lambda f: PathInfo(f.node), lang):
             n += 1
             if k == 0:
                 ctx.ok(rule, '%s: p[0] (result slot)' % f.short, '%s:%d' % (
@@ -866,46 +912,47 @@ def run(pm, ctx, rule, which=('GR1', 'GR2', 'GR3', 'GR4')):
                           f.short, k, admitted),
                       '%s:%d' % (f.module.relpath, node.lineno),
                       msg='%s reads p[%d] on a path that admits an alternative with only %s '
-                          'symbols: IndexError while parsing, not a spec error' % (
+                          'symbols: IndexError while parsing' % (
                               f.short, k, [b - 1 for b in bad]),
                       key='%s|%s|p[%d]|index' % (rule, f.qualname, k))
-        ctx.floor(rule, n, 150, 'p[k] reads in production actions')
+        ctx.floor(rule, n, cfg['min_reads'], 'p[k] reads in production actions')
     ref = None
     if 'GR3' in which or 'GR4' in which:
-        ref = load_reference()
+        ref = load_reference()[lang]
     if 'GR3' in which:
-        cur = {'start': g['start'], 'tokens': g['tokens'],
+        cur = {'start': g['start'], 'tokens': g['tokens'], 'precedence': g['precedence'],
                'productions': [(l, r) for l, r, _ in g['productions']]}
         w, stats = language_witness(cur, ref['grammar'], pm.repo)
-        ctx.extra['grammar_drift'] = stats
+        ctx.extra['%s_grammar_drift' % lang] = stats
         if w is None:
             detail = 'identical up to nonterminal names' if stats.get('same_up_to_renaming') \
                 else 'production sets differ; no witness among %s probes (not claimed)' % \
                 stats.get('probes')
-            ctx.ok(rule, 'token-level language of the spec grammar against the reference: '
+            ctx.ok(rule, 'token-level language of the %s grammar against the reference: ' % what
                    + detail, where)
         elif w.get('sentence') is None:
-            ctx.violation(rule, '%s|grammar|language|refused' % rule, where, w['why'])
+            ctx.violation(rule, '%s|%s-grammar|language|refused' % (rule, lang), where, w['why'])
         else:
             ctx.violation(
-                rule, '%s|grammar|language|%s' % (rule, w['nonterminal']), where,
-                'the spec grammar changed its language: the token string `%s` is %s by the LALR '
+                rule, '%s|%s-grammar|language|%s' % (rule, lang, w['nonterminal']), where,
+                'the %s grammar changed its language: the token string `%s` is %s by the LALR '
                 'table of the current grammar and %s by the confirmed one (difference found in '
-                'nonterminal %s)' % (w['sentence'],
+                'nonterminal %s)' % (what, w['sentence'],
                                      'accepted' if w['accepted_now'] else 'refused',
                                      'accepted' if w['accepted_before'] else 'refused',
                                      w['nonterminal']))
     if 'GR4' in which:
-        lt = lexer_table(pm)
+        lt = lexer_table(pm, lang)
         w, stats = lexer_witness(lt, ref['lexer'])
-        ctx.extra['lexer_drift'] = stats
-        lwhere = pm.cls(LEXER).module.relpath
+        ctx.extra['%s_lexer_drift' % lang] = stats
+        lwhere = pm.cls(cfg['lexer']).module.relpath
         if w is None:
-            ctx.ok(rule, 'lexer tables against the reference: %d states, %d rules, keyword table, '
-                         'ignored characters - no witness text on which the first token differs'
-                   % (len(lt['states']), sum(len(v) for v in lt['rules'].values())), lwhere)
+            ctx.ok(rule, '%s lexer tables against the reference: %d states, %d rules, keyword '
+                         'table, ignored characters - no witness text on which the first token '
+                         'differs' % (what, len(lt['states']),
+                                      sum(len(v) for v in lt['rules'].values())), lwhere)
         else:
             ctx.violation(
-                rule, '%s|lexer|%s|%s' % (rule, w['table'], w['state']), lwhere,
-                'the lexer changed (%s, state %s): on the text %r the first token is now %s, '
-                'it was %s' % (w['table'], w['state'], w['text'], w['now'], w['before']))
+                rule, '%s|%s-lexer|%s|%s' % (rule, lang, w['table'], w['state']), lwhere,
+                'the %s lexer changed (%s, state %s): on the text %r the first token is now %s, '
+                'it was %s' % (what, w['table'], w['state'], w['text'], w['now'], w['before']))
